@@ -32,7 +32,7 @@ ANCHORS = [
 ]
 REQUIRED = ["runs_judged", "plug_events", "unplug_events", "regime:back-to-back-reuse", "regime:simultaneous-events",
             "regime:recompute-after-last-departure", "regime:one-period-session", "connectivity_runs", "second_runs_on_a_reused_queue", "regime:over-128-events-due-at-once", "sched:scripted",
-            "sched:uncontrolled", "sched:sorted", "snapshots_checked"]
+            "sched:uncontrolled", "sched:sorted", "snapshots_checked", "runs_where_a_waiting_ev_took_over_a_freed_space"]
 BUDGET_S = {"quick": 240, "thorough": 3000}
 TRACE_RE = re.compile(r"^U*P*S?AX$")
 
@@ -91,11 +91,34 @@ def cases(seed, tier):
         else:
             d = gen.scenario(rng, sched="sorted", kinds=("EVSE", "FR"), noise_p=0.2, constraint_free_p=0.15)
         out.append({"desc": d, "reuse_queue": rng.random() < 0.12})
+    # networks that assign spaces at run time (contrib StochasticNetwork): sessions name no space of their own, more cars than
+    # spaces, so late arrivals wait and take over a freed space (their station changes after their plug-in event)
+    for i in range(n // 8):
+        d = gen.scenario(rng, sched=rng.choice(["scripted", "uncontrolled"]), kinds=("EVSE", "FR"), nmax=3, sess_max=2, noise_p=0.0)
+        ids = [s_["id"] for s_ in d["network"]["stations"]]
+        sess = []
+        for k in range(rng.randint(len(ids) + 1, len(ids) + 6)):
+            a = rng.randint(0, 8)
+            req = rng.choice([0.3, 3, 25])
+            sess.append({"id": f"q{k}", "station": rng.choice(ids), "arrival": a, "departure": a + rng.randint(1, 8), "requested": req,
+                         "est_dep": a + 3, "battery": gen.rand_battery(rng, req)})
+        d["sessions"] = sess
+        d["recompute"] = []
+        out.append({"desc": d, "stochastic": True, "rseed": rng.randrange(1 << 30)})
     return out
 
 
 def run_case(case, obs):
     d = case["desc"]
+    if case.get("stochastic"):
+        from acnportal.contrib.acnsim.network import StochasticNetwork
+        random.seed(case["rseed"])
+        sim, evs, probe = simrun.run_traced(d, net_cls=StochasticNetwork)
+        obs.ev("runs_on_a_network_assigning_spaces_at_run_time")
+        if getattr(sim.network, "swaps", 0):
+            obs.ev("runs_where_a_waiting_ev_took_over_a_freed_space")
+        _judge(case, obs, d, sim, evs, probe)
+        return
     sim, evs, probe = simrun.run_traced(d)
     _judge(case, obs, d, sim, evs, probe)
     if case.get("reuse_queue") and probe.exception is None and sim.event_queue.empty():
@@ -168,6 +191,13 @@ def _judge(case, obs, d, sim, evs, probe):
             break
     if sorted(ps) != list(range(sim.iteration)):
         obs.violate("period_trace", f"periods traced {sorted(ps)[:5]}..{sorted(ps)[-3:]} vs iteration {sim.iteration}", **wit)
+    if case.get("stochastic"):
+        # spaces are assigned at run time: the interval model per station does not apply; C19 judges placement
+        if len(sess) >= 2:
+            obs.nontrivial()
+        obs.sample = {"stations": len(d["network"]["stations"]), "sessions": len(sess), "scheduler": d["scheduler"]["kind"],
+                      "stochastic": True, "periods": sim.iteration, "swaps": getattr(sim.network, "swaps", None)}
+        return
     # --- occupancy per period against the interval model
     for snap in probe.snaps:
         t = snap["t"]
